@@ -44,6 +44,7 @@ def plan(tier, seed):
         specs.append({'kind': 'window', 'count': 10 if tier == 'quick' else 40, 'index': i})
     specs.append({'kind': 'tail'})
     specs.append({'kind': 'nul', 'count': 150 if tier == 'quick' else 1500})
+    specs.append({'kind': 'fill'})
     for i in range(2 if tier == 'quick' else 8):
         specs.append({'kind': 'update60', 'count': 60 if tier == 'quick' else 250})
     for i in range(k):
@@ -177,6 +178,19 @@ def check_consumer(ctx, t, items, compress, tag, header_len=None):
     if problems:
         ctx.inconclusive_because('reference encoder produced a malformed stream: %s' % problems)
         return
+    if len(stream) + 8 <= rc.CODE_SIZE and ctx.monitors.get('foreign_streams_compared', 0) % 3 == 0:
+        # the same stream in a buffer that ends where the stream ends (or one / two bytes later): nothing may depend on padding
+        for pad in (0, 1, 2):
+            short = bytearray(area[:8 + len(stream) + pad])
+            try:
+                n3, got3, cs3 = compress.decompress_code(short)
+            except Exception as e:
+                ctx.violation('decompress_code raised %r on a well-formed stream in a buffer with %d bytes after it' % (e, pad), case)
+                return
+            ctx.monitor('unpadded_buffers_compared')
+            if got3 != want:
+                ctx.violation('picotool decodes a well-formed stream differently when the buffer ends %d bytes after it' % pad, case)
+                return
     try:
         n2, got, cs = compress.decompress_code(bytearray(area))
     except Exception as e:
@@ -307,6 +321,43 @@ def run_shard(spec, ctx):
             check_producer(ctx, t, 'nul', compress, p8png)
             check_consumer(ctx, t, rc.c_random_items(t, rng, p_ref=rng.choice((0.3, 0.9))), compress, 'nul-random-encoder')
         ctx.sample({'nul_text': b'x="\x00ab\x00"'})
+    elif kind == 'fill':
+        # streams that fill the code area to its last byte, ending in each kind of item
+        room = rc.CODE_SIZE - 8
+        for last in ('esc', 'ref', 'lit'):
+            for slack in (0, 1, 2):
+                # escapes cost two bytes each: a text of non-table characters fills the area exactly; the tail is shaped per case
+                n_esc = (room - slack) // 2 - 4
+                text = bytearray(rng.choice(b'ABCDEFGHIJKLMNOPQRSTUVWXYZ') for _ in range(n_esc))
+                items = [('esc', c) for c in text]
+                used = 2 * n_esc
+                while room - slack - used >= 4:
+                    items.append(('lit', rc.C_INDEX[ord('a')]))
+                    text.append(ord('a'))
+                    used += 1
+                if last == 'ref':
+                    items.append(('ref', 5, 3))
+                    text += text[-5:-2]
+                    used += 2
+                elif last == 'esc':
+                    items.append(('esc', ord('Q')))
+                    text.append(ord('Q'))
+                    used += 2
+                else:
+                    items.append(('lit', rc.C_INDEX[ord('z')]))
+                    text.append(ord('z'))
+                    used += 1
+                while used < room - slack:
+                    items.insert(0, ('lit', rc.C_INDEX[ord('b')]))
+                    text.insert(0, ord('b'))
+                    used += 1
+                t = bytes(text)
+                if len(rc.c_encode_items(items)) != room - slack:
+                    ctx.inconclusive_because('fill generator: stream has %d bytes, wanted %d' % (len(rc.c_encode_items(items)), room - slack))
+                    return
+                ctx.feature('stream_fills_code_area' if slack == 0 else 'stream_ends_%d_before_area_end' % slack)
+                check_consumer(ctx, t, items, compress, 'fill-' + last)
+        ctx.sample({'fill': 'streams of exactly 0x3d00-8 bytes (and 1, 2 less) ending in an escape, a back-reference, a literal'})
     elif kind == 'tail':
         block = b'abcdefghijklmnopq'  # 17 bytes
         for k in range(0, 21):
@@ -491,6 +542,8 @@ def gates(m, tier):
     for k in range(21):
         if f.get('tail_offset_%d' % k, 0) < 1:
             missed.append('tail offset %d missing' % k)
+    if f.get('stream_fills_code_area', 0) < 3 or mon.get('unpadded_buffers_compared', 0) < 300:
+        missed.append('streams filling the code area: %d; unpadded buffers compared: %d' % (f.get('stream_fills_code_area', 0), mon.get('unpadded_buffers_compared', 0)))
     if f.get('nul_texts', 0) < 1000 or min(f.get('nul_at_start', 0), f.get('nul_at_end', 0), f.get('nul_inside', 0)) < 5 or f.get('shim_followed_by_text', 0) < 20:
         missed.append('texts with NUL characters: %d (start %d, end %d, inside %d); shim followed by text: %d' % (
             f.get('nul_texts', 0), f.get('nul_at_start', 0), f.get('nul_at_end', 0), f.get('nul_inside', 0), f.get('shim_followed_by_text', 0)))
